@@ -57,13 +57,13 @@ CHECKS = {
               "unsuppressed and (no key, or the FIRST unsuppressed candidate of its key) — proved for every candidate list; only the root of a declaration can be pruned and the body of a "
               "@testonly function/method yields nothing; the candidate nodes are characterised exactly (call of a function object that resolves to an annotated package-level function, pkg.F, method call through aliases and one pointer, composite literal / typed spec / field of an annotated type - C03_candidate_nodes), so a bare callee counts only if it resolves to the annotated function (name sharing never reported); the three indices "
               "mean the annotations, same package and direct imports alike. Same correspondence as C01."),
-        note="Fragment: non-generic defined types, direct imports, one candidate per line; go/parser + go/types facts are inputs serialised verbatim by `ggx skel`; well-formedness (no FuncDecl nested in a declaration) evaluated by the model on every serialised package. The receiver field of a non-@testonly method on a @testonly type, promoted methods and dot-imports are left unspecified (DESIGN 5.1).",
+        note="Fragment: non-generic defined types, direct imports, one candidate per line; go/parser + go/types facts are inputs serialised verbatim by `ggx skel`; well-formedness (no FuncDecl nested in a declaration) evaluated by the model on every serialised package. The receiver field of a non-@testonly method on a @testonly type and promoted methods are left unspecified (DESIGN 5.1); dot-imported names are generated and compared.",
         technique="Coq proof (first-unsuppressed-use characterisation of the dedup fold, pruning lemma) + model/implementation correspondence"),
     "C04": dict(
         text=("Theorems (Coq): the attachment list of an item is the union of all its @packageonly lists (own + direct-import facts); a reference is a candidate iff the item is declared in another "
-              "package, annotated, and neither the using package's path nor its name is in the union (proved with the exact message for functions, types and methods, and with the exact set of nodes that are looked at: selectors whose object lives in another package, identifiers whose object lives in the analysed one); "
+              "package, annotated, and neither the using package's path nor its name is in the union (proved with the exact message for functions, types and methods, and with the exact set of nodes that are looked at: selectors whose object lives in another package, and plain identifiers - not the selected identifier of a selector - whatever package their object lives in: the analysed one, never denied, or one brought in by a dot import); "
               "references from the declaring package are never candidates; per file ignore-first, PKGO01 once per (package,type), PKGO02/03 each (same dedup theorem as C03). Same correspondence as C01."),
-        note="Fragment: non-generic defined types, direct imports, one candidate per line; go/parser + go/types facts are inputs serialised verbatim by `ggx skel`; well-formedness (no FuncDecl nested in a declaration) evaluated by the model on every serialised package. Dot-imports, fields of @packageonly structs and promoted methods are left unspecified (DESIGN 5.1).",
+        note="Fragment: non-generic defined types, direct imports, one candidate per line; go/parser + go/types facts are inputs serialised verbatim by `ggx skel`; well-formedness (no FuncDecl nested in a declaration) evaluated by the model on every serialised package. Fields of @packageonly structs and promoted methods are left unspecified (DESIGN 5.1); dot-imported names are generated and compared since fix 8110a7d.",
         technique="Coq proof (union/denied characterisation, dedup theorem) + model/implementation correspondence"),
     "C05": dict(
         text=("Theorems (Coq): IMPL01 iff a qualifier is given and no import of that file binds it under its explicit alias or the imported package's declared name (proved from the four-priority "
